@@ -1247,7 +1247,12 @@ class Step:
         if op["buf"] >= len(w.bufs):
             raise Skip()
         buf = w.bufs[op["buf"]]
-        off = buf.allocate(op["size"], align=op["align"])
+        try:
+            off = buf.allocate(op["size"], align=op["align"])
+        except Exception as e:
+            # a growable buffer honours every request (alloc_fail is injected elsewhere, never here)
+            self.viol("C04", "valid_allocation_raised", ["raw_alloc", exc_sig(e)], f"allocate({op['size']}, align={op['align']}): {type(e).__name__}: {e}")
+            return
         data = pbytes(op["fill"], op["size"])
         buf.update_from_buffer(off, data)
         w.regions.append([buf, off, op["size"]])
@@ -1263,7 +1268,11 @@ class Step:
             buf.update_from_buffer(off, pbytes(op["scribble"], size))
             self.res.fault("dirty_reuse")
         self.allowed.append((buf, off, off + size))
-        buf.free(off, size)
+        try:
+            buf.free(off, size)
+        except Exception as e:
+            self.viol("C12", "valid_free_raised", ["raw_free", exc_sig(e)], f"free({off}, {size}): {type(e).__name__}: {e}")
+            return
         w.regions[op["region"]] = None
 
     def op_kill(self):
